@@ -64,6 +64,7 @@ RULES = {
     "R-ARG-ORDER": ("rules.round3", "r_arg_order"),
     "R-ZST-DROP": ("rules.round3", "r_zst_drop"),
     "R-FORGET-WINDOW": ("rules.round3", "r_forget_window"),
+    "R-LOAD-FACTOR": ("rules.round3", "r_load_factor"),
     "R-ACCT": ("rules.acct", "r_acct"),
     "R-CTRL-WRITE": ("rules.acct", "r_ctrl_write"),
     "R-ERASE-BEFORE": ("rules.ownership", "r_erase_before"),
@@ -310,7 +311,7 @@ for _p, _rs in _ROUND2.items():
         PROPS[_p]["decided"] += "; also: " + _extra
 
 # rules added after the third round of independent mutations (DESIGN.md 12.8)
-_ROUND3 = {'C16': ['R-REBORROW'], 'C02': ['R-REBORROW', 'R-DUP-FORGET', 'R-OWNING-ITER', 'R-CLONE-GUARD-RANGE', 'R-DROP-ORDER', 'R-PAR-CONSUME', 'R-LINEAR-INNER', 'R-TAG-CONSTS', 'R-BITMASK-DEFS', 'R-ARG-ORDER', 'R-ZST-DROP', 'R-FORGET-WINDOW'], 'C14': ['R-REBORROW', 'R-KEEP-KEY', 'R-ARG-ORDER'], 'C15': ['R-REBORROW'], 'C03': ['R-PAR-CONSUME', 'R-SIBLING-FORWARD', 'R-ZST-DROP', 'R-GROUP-DEFS', 'R-AUTO', 'R-FORGET-WINDOW', 'R-PAR-LINEAR'], 'C10': ['R-PAR-CONSUME', 'R-ZST-PTR', 'R-DUP-FORGET', 'R-ZST-DROP', 'R-PAR-LINEAR'], 'C06': ['R-ZST-PTR', 'R-BULKDROP-GUARD', 'R-SIBLING-FORWARD', 'R-BITMASK-DEFS', 'R-ARG-ORDER'], 'C09': ['R-ZST-PTR', 'R-ACCT', 'R-TAG-CONSTS', 'R-BITMASK-DEFS', 'R-FORWARD'], 'C01': ['R-HINT-LOWER', 'R-SIBLING-FORWARD', 'R-TAG-CONSTS', 'R-BITMASK-DEFS', 'R-ARG-ORDER', 'R-GROUP-DEFS'], 'C07': ['R-LINK', 'R-SIBLING-FORWARD', 'R-ARG-ORDER'], 'C12': ['R-TRY-WRAPPERS', 'R-SIBLING-FORWARD', 'R-FORWARD'], 'C08': ['R-CAP-WRAPPERS', 'R-HINT-LOWER', 'R-SIBLING-FORWARD'], 'C05': ['R-BUCKET-FRESH', 'R-RESERVE-FIRST', 'R-TAG-CONSTS', 'R-BITMASK-DEFS', 'R-GROUP-DEFS', 'R-ZST-DROP'], 'C11': ['R-SIBLING-FORWARD', 'R-FORGET-WINDOW', 'R-ZST-DROP', 'R-DROP-ORDER'], 'C13': ['R-TAG-CONSTS', 'R-GROUP-DEFS'], 'C17': ['R-TAG-CONSTS', 'R-INFALLIBLE', 'R-LAYOUT-SOURCE', 'R-FALLIBLE-THREAD'], 'C19': ['R-ARG-ORDER'], 'C04': ['R-ZST-DROP', 'R-FORGET-WINDOW'], 'C20': ['R-SINGLETON-GUARD', 'R-BULKDROP-GUARD']}
+_ROUND3 = {'C16': ['R-REBORROW'], 'C02': ['R-REBORROW', 'R-DUP-FORGET', 'R-OWNING-ITER', 'R-CLONE-GUARD-RANGE', 'R-DROP-ORDER', 'R-PAR-CONSUME', 'R-LINEAR-INNER', 'R-TAG-CONSTS', 'R-BITMASK-DEFS', 'R-ARG-ORDER', 'R-ZST-DROP', 'R-FORGET-WINDOW'], 'C14': ['R-REBORROW', 'R-KEEP-KEY', 'R-ARG-ORDER'], 'C15': ['R-REBORROW'], 'C03': ['R-PAR-CONSUME', 'R-SIBLING-FORWARD', 'R-ZST-DROP', 'R-GROUP-DEFS', 'R-AUTO', 'R-FORGET-WINDOW', 'R-PAR-LINEAR'], 'C10': ['R-PAR-CONSUME', 'R-ZST-PTR', 'R-DUP-FORGET', 'R-ZST-DROP', 'R-PAR-LINEAR'], 'C06': ['R-ZST-PTR', 'R-BULKDROP-GUARD', 'R-SIBLING-FORWARD', 'R-BITMASK-DEFS', 'R-ARG-ORDER'], 'C09': ['R-ZST-PTR', 'R-ACCT', 'R-TAG-CONSTS', 'R-BITMASK-DEFS', 'R-FORWARD'], 'C01': ['R-HINT-LOWER', 'R-SIBLING-FORWARD', 'R-TAG-CONSTS', 'R-BITMASK-DEFS', 'R-ARG-ORDER', 'R-GROUP-DEFS', 'R-LOAD-FACTOR'], 'C07': ['R-LINK', 'R-SIBLING-FORWARD', 'R-ARG-ORDER'], 'C12': ['R-TRY-WRAPPERS', 'R-SIBLING-FORWARD', 'R-FORWARD'], 'C08': ['R-CAP-WRAPPERS', 'R-HINT-LOWER', 'R-SIBLING-FORWARD', 'R-LOAD-FACTOR'], 'C05': ['R-BUCKET-FRESH', 'R-RESERVE-FIRST', 'R-TAG-CONSTS', 'R-BITMASK-DEFS', 'R-GROUP-DEFS', 'R-ZST-DROP', 'R-LOAD-FACTOR'], 'C11': ['R-SIBLING-FORWARD', 'R-FORGET-WINDOW', 'R-ZST-DROP', 'R-DROP-ORDER'], 'C13': ['R-TAG-CONSTS', 'R-GROUP-DEFS', 'R-LOAD-FACTOR'], 'C17': ['R-TAG-CONSTS', 'R-INFALLIBLE', 'R-LAYOUT-SOURCE', 'R-FALLIBLE-THREAD', 'R-LOAD-FACTOR'], 'C19': ['R-ARG-ORDER'], 'C04': ['R-ZST-DROP', 'R-FORGET-WINDOW'], 'C20': ['R-SINGLETON-GUARD', 'R-BULKDROP-GUARD']}
 _ROUND3_CLAUSE = {
     "R-REBORROW": "a by-reference method of a mutable-access handle (entry, IterMut, Drain, ..) never returns the handle's own collection lifetime (R-REBORROW)",
     "R-PAR-CONSUME": "the parallel drain leaf forgets its producer only when its cursor is exhausted, every taken element is consumed (R-PAR-CONSUME)",
@@ -320,6 +321,7 @@ _ROUND3_CLAUSE = {
     "R-KEEP-KEY": "insert on an occupied entry replaces exactly the value of the stored pair (R-KEEP-KEY)",
     "R-HINT-LOWER": "space reserved ahead of extend/from_iter is sized from the lower size_hint bound only (R-HINT-LOWER)",
     "R-LINK": "a set's table is never replaced without its hasher (R-LINK)",
+    "R-LOAD-FACTOR": "constant relations of the load factor: capacity < buckets (7/8 < 1) and capacity_to_buckets inverts bucket_mask_to_capacity incl. the small-table arms (R-LOAD-FACTOR)",
     "R-SINGLETON-GUARD": "an allocated table is always freed, the static singleton never (R-SINGLETON-GUARD)",
     "R-PAR-LINEAR": "parallel drains hand every element to exactly one owner (R-PAR-LINEAR)",
     "R-INFALLIBLE": "capacity overflow is reported through the Fallibility parameter, never as a bare Err (R-INFALLIBLE)",
